@@ -18,11 +18,11 @@ import (
 func init() {
 	simkit.Register(&simkit.Property{
 		ID: "C03", Level: "exploration", Bubble: true, Run: runC03,
-		Rule: "World C: n in {3,4,5} real keyper message stacks (p2p registries, validators, handlers, KeyShareHandler, pgx/sqlc on pgsim) with a trusted-dealer eon; m>=t keypers are triggered through the real trigger channel for 1-3 identities; every database round trip, every gossip delivery (per message x receiver latency and order, net.dup, net.drop of at most m-t share messages per receiver) is a scheduler choice. Oracles: every message published by an honest node is accepted by its own and every honest peer's real validator chain; at quiescence every node stores the reference epoch key for every identity. Non-trivial = a run with at least one delivery reordered relative to send order and at least one loss or duplicate; distinct = distinct trace hashes among those.",
+		Rule: "World C: n in {3,4,5} real keyper message stacks (p2p registries, validators, handlers, KeyShareHandler, pgx/sqlc on pgsim) with a trusted-dealer eon; m>=t keypers are triggered through the real trigger channel for 1-3 identities; every database round trip, every gossip delivery (per message x receiver latency and order, net.dup, net.drop of at most m-t share messages per receiver) is a scheduler choice. Oracles: every message published by an honest node is accepted by its own and every honest peer's real validator chain; at quiescence every node stores the reference epoch key for every identity. In 25% of the runs one node is partitioned from (some of) the others and the partition heals after 20-600 ms. Non-trivial = a run with at least one delivery reordered relative to send order and at least one loss or duplicate; distinct = distinct trace hashes among those.",
 		Assumptions: []string{"gossipsub's contract as modelled by simnet (local validation on publish, validation before delivery, no self-delivery)", "pgsim implements the PostgreSQL semantics the queries rely on (conformance run against the repository's own DB tests)"},
 		Real:        []string{"p2p.P2PMessaging (validators, handlers, SendMessage)", "epochkghandler (KeyShareHandler, DecryptionKeyShareHandler, DecryptionKeyHandler)", "epochkg", "keyper/database sqlc queries", "pgx/pgxpool", "medley/db.InitDB"},
 		Stub:        []string{"libp2p host/gossipsub (simnet)", "PostgreSQL server (pgsim)", "DKG (trusted dealer eon keys)"},
-		QuickRuns:   400, ThoroughRuns: 40000, QuickMinimize: 60, ThoroughMinimize: 300,
+		QuickRuns:   1200, ThoroughRuns: 40000, QuickMinimize: 60, ThoroughMinimize: 300,
 	})
 }
 
@@ -100,7 +100,20 @@ func runC03(r *simkit.Run) {
 			w.triggerNode(w.nodes[i], 10, ids)
 		}
 	}
-	done := w.run(20000)
+	// partition and heal: some pairs cannot talk for a while; their messages arrive after the
+	// heal (gossipsub re-gossips), i.e. much later than everything else
+	if c.Chance(250, "partition") {
+		iso := c.Intn(n, "isolated-node")
+		for i := range w.nodes {
+			if i != iso && c.Chance(700, "cut-pair") {
+				w.net.SetPartition(w.nodes[iso].name, w.nodes[i].name, true)
+			}
+		}
+		heal := time.Duration(c.Range(20, 600, "heal-after-ms")) * time.Millisecond
+		w.s.After(heal, "heal", func() { w.net.HealAll() })
+		r.Probe("partitioned-runs")
+	}
+	done := w.run(40000)
 	if r.Failed() {
 		r.Fail("", "", "")
 	}
